@@ -124,6 +124,10 @@ func (w *udpWorld) open(kind, pi int) {
 		w.Fail("socket-setup-failed", "", "opening a UDP socket of kind %d on port %d failed: %v", kind, port, e)
 		return
 	}
+	if pi%2 == 1 {
+		// receive timestamps: Read then consults the clock after releasing its lock
+		ep.SetSockOpt(tcpip.TimestampOption(1))
+	}
 	w.socks = append(w.socks, s)
 	w.Settle()
 }
@@ -348,7 +352,9 @@ func (w *udpWorld) write(si, n, dstSel int) {
 }
 
 func (w *udpWorld) apply(s Step) {
-	if w.pending > 0 && (s.Op == "read" || s.Op == "drain" || s.Op == "shutr" || s.Op == "close" || s.Op == "write" || s.Op == "open") {
+	if s.Op == "read" || s.Op == "drain" || s.Op == "shutr" || s.Op == "close" || s.Op == "write" || s.Op == "open" {
+		// the simulator's own socket calls are ordered after everything posted so
+		// far (posted reads, arrivals still in the receive goroutine's inbox)
 		w.Settle()
 	}
 	switch s.Op {
@@ -404,6 +410,11 @@ func (w *udpWorld) apply(s Step) {
 		}
 	case "write":
 		w.write(s.A, int(s.D), s.B)
+	case "tsopt":
+		// switch receive timestamps on/off: datagrams queued without one get it at Read time, outside the lock
+		if s.A >= 0 && s.A < len(w.socks) && !w.socks[s.A].closed {
+			w.socks[s.A].ep.SetSockOpt(tcpip.TimestampOption(s.B))
+		}
 	case "adv":
 		w.Advance(time.Duration(s.D))
 	}
@@ -420,18 +431,24 @@ func udpLen(r *sim.Rand) int {
 func (w *udpWorld) next() Step {
 	r := w.Rng
 	if len(w.socks) == 0 || (len(w.socks) < 4 && r.Chance(0.15)) {
-		return Step{Op: "open", A: r.Intn(6)}
+		return Step{Op: "open", A: r.Intn(6), B: r.Intn(2)}
 	}
 	si := r.Intn(len(w.socks))
+	if r.Chance(0.06) {
+		return Step{Op: "tsopt", A: si, B: r.Intn(2)}
+	}
 	switch r.Pick(10, 3, 2, 6, 2, 3, 1, 1, 2) {
 	case 0:
+		if w.YieldP > 0 && r.Chance(0.6) {
+			return Step{Op: "narrive", A: si, B: r.Intn(4), C: r.Intn(16), D: int64(udpLen(r))}
+		}
 		return Step{Op: "arrive", A: si, B: r.Intn(4), C: r.Intn(16), D: int64(udpLen(r))}
 	case 1:
 		return Step{Op: "narrive", A: si, B: r.Intn(4), C: r.Intn(16), D: int64(udpLen(r))}
 	case 2:
 		return Step{Op: "burst", A: si, B: r.Range(2, 40), C: r.Intn(16), D: int64([]int{100, 1000, 2000, 8000}[r.Intn(4)])}
 	case 3:
-		if w.YieldP > 0 && r.Chance(0.5) {
+		if w.YieldP > 0 && r.Chance(0.8) {
 			return Step{Op: "aread", A: si}
 		}
 		return Step{Op: "read", A: si}
